@@ -114,6 +114,7 @@ type Opts struct {
 	WatchWithoutClass bool   `json:"watch_without_class"`
 	DefaultService    string `json:"default_service,omitempty"`
 	BackendShards     int    `json:"backend_shards,omitempty"`
+	GatewayV1         bool   `json:"gateway_v1,omitempty"`
 }
 
 // Run describes how one fresh pipeline is fed.
@@ -199,7 +200,8 @@ type Result struct {
 // files it wrote.  keep leaves the pipeline open (the caller closes it).
 func Exec(r Run, u sem.Universe, keep bool) (*Result, error) {
 	popt := pipeline.Options{Dir: r.Dir, WatchWithoutClass: r.Opts.WatchWithoutClass,
-		DefaultService: r.Opts.DefaultService, BackendShards: r.Opts.BackendShards, NoAutoMeta: true}
+		DefaultService: r.Opts.DefaultService, BackendShards: r.Opts.BackendShards, NoAutoMeta: true,
+		HasGatewayV1: r.Opts.GatewayV1}
 	var st *store
 	var sc *ShuffleClient
 	if r.ShuffleLists {
@@ -385,7 +387,7 @@ func DiffCanon(a, b string, max int) []string {
 
 // Hosts / Paths are the pools of the C06 clusters (world pools plus the names the spice uses).
 var (
-	Hosts = append(append([]string{}, world.Hosts...), "alias.example", "redir.example", "redir2.example")
+	Hosts = append(append([]string{}, world.Hosts...), "alias.example", "redir.example", "redir2.example", "gw.example")
 	Paths = append(append([]string{}, world.Paths...), "/oauth2", "/deny")
 )
 
